@@ -10,16 +10,40 @@ VERDICTS = ("proved", "refuted", "undecided")
 
 def check_one(axioms, ob, timeout_ms):
     t0 = time.time()
+    # stage 1: quantifier-free hypotheses only (a weakening: unsat here is a proof); fast and robust
+    from .state import has_quant
     s = z3.Solver()
-    s.set("timeout", timeout_ms)
+    s.set("timeout", min(3000, timeout_ms))
     for a in axioms:
-        s.add(a)
-    s.add(*ob.hyps)
+        if not has_quant(a):
+            s.add(a)
+    for h in ob.hyps:
+        if not has_quant(h):
+            s.add(h)
     s.add(z3.Not(ob.goal))
-    r = s.check()
+    if s.check() == z3.unsat:
+        return ("proved", "z3", time.time() - t0, None)
+    # stage 2: full hypotheses; small portfolio (z3's quantifier engine is sensitive to configuration)
+    configs = [{"mbqi": True}, {"mbqi": False}, {"mbqi": True, "seed": 17}]
+    r = z3.unknown
+    s = None
+    for k, cfg in enumerate(configs):
+        s = z3.Solver()
+        s.set("timeout", max(1000, timeout_ms // (2 if k == 0 else 4)))
+        if not cfg.get("mbqi", True):
+            s.set("smt.mbqi", False)
+        if "seed" in cfg:
+            s.set("smt.random_seed", cfg["seed"])
+        for a in axioms:
+            s.add(a)
+        s.add(*ob.hyps)
+        s.add(z3.Not(ob.goal))
+        r = s.check()
+        if r == z3.unsat:
+            return ("proved", "z3" if k == 0 else "z3(cfg%d)" % k, time.time() - t0, None)
+        if r == z3.sat and cfg.get("mbqi", True):
+            break
     dt = time.time() - t0
-    if r == z3.unsat:
-        return ("proved", "z3", dt, None)
     if r == z3.sat:
         try:
             m = s.model()
@@ -27,16 +51,44 @@ def check_one(axioms, ob, timeout_ms):
         except Exception as e:       # pragma: no cover
             txt = "model unavailable: %s" % e
         return ("refuted", "z3", dt, txt)
-    # unknown: hand the same query to cvc5
+    # unknown: hand the same query, as SMT-LIB text, to fresh solver processes (a fresh context removes
+    # the dependence on term ids of this process), then to the other installed solvers
+    why = s.reason_unknown()
     try:
         smt2 = s.to_smt2()
-        v = run_cvc5(smt2, max(5, timeout_ms // 1000))
-        dt = time.time() - t0
-        if v == "unsat":
-            return ("proved", "cvc5", dt, None)
-        return ("undecided", "z3:unknown(%s) cvc5:%s" % (s.reason_unknown(), v), dt, None)
     except Exception as e:
-        return ("undecided", "z3:unknown(%s) cvc5:error %s" % (s.reason_unknown(), e), time.time() - t0, None)
+        return ("undecided", "z3:unknown(%s); no smt2: %s" % (why, e), time.time() - t0, None)
+    notes = []
+    for name, cmd in (("z3-new", ["z3-new", "-T:%d" % max(5, timeout_ms // 1000)]),
+                      ("z3-4.8", ["/usr/bin/z3", "-T:%d" % max(5, timeout_ms // 1000)]),
+                      ("cvc5", ["/usr/bin/cvc5", "--tlimit=%d" % timeout_ms])):
+        v = run_cli(cmd, smt2, max(5, timeout_ms // 1000))
+        if v == "unsat":
+            return ("proved", name, time.time() - t0, None)
+        notes.append("%s:%s" % (name, v[:40]))
+        if v == "sat" and name.startswith("z3"):
+            return ("refuted", name, time.time() - t0, "model not extracted (CLI run)")
+    return ("undecided", "z3:unknown(%s) %s" % (why, " ".join(notes)), time.time() - t0, None)
+
+
+def run_cli(cmd, smt2, timeout_s):
+    d = "/dev/shm" if os.path.isdir("/dev/shm") else None
+    with tempfile.NamedTemporaryFile("w", suffix=".smt2", delete=False, dir=d) as fh:
+        fh.write(smt2 if not cmd[0].endswith("cvc5") else "(set-logic ALL)\n" + smt2)
+        path = fh.name
+    try:
+        p = subprocess.run(cmd + [path], capture_output=True, text=True, timeout=timeout_s + 10)
+        out = (p.stdout or "").strip().splitlines()
+        return out[0] if out else "error:" + (p.stderr or "")[:80]
+    except subprocess.TimeoutExpired:
+        return "timeout"
+    except Exception as e:
+        return "error:%s" % e
+    finally:
+        try:
+            os.unlink(path)
+        except OSError:
+            pass
 
 
 def run_cvc5(smt2, timeout_s):
